@@ -144,6 +144,7 @@ pub fn gen_string(rng: &mut Rng, ascii_only: bool) -> String {
             _ => *rng.pick(&['ü', 'Ж', '€']),
         };
         s.push(c);
+        if c == '\\' && !ascii_only && rng.chance(1, 3) { s.push(*rng.pick(&['é', '中', '🦀', 'ß'])); }
     }
     s
 }
@@ -486,7 +487,8 @@ impl<'a> R<'a> {
                 '\\' => {
                     // "\q" (unknown escape) keeps both characters: use that spelling sometimes
                     let next = chars.get(i + 1).copied();
-                    let unknown_escape_ok = matches!(next, Some(n) if n.is_ascii() && !matches!(n, 'n' | 'r' | 't' | '\\' | '0' | '"' | '\n' | '\r' | '\t' | '\0'));
+                    let unknown_escape_ok = matches!(next, Some(n) if !matches!(n, 'n' | 'r' | 't' | '\\' | '0' | '"' | '\n' | '\r' | '\t' | '\0'));
+                    if unknown_escape_ok && !next.unwrap().is_ascii() { self.feat("unknown-escape-non-ascii"); }
                     if unknown_escape_ok && self.rng.chance(1, 3) { self.feat("unknown-escape"); self.out.push('\\'); self.out.push(next.unwrap()); i += 1; }
                     else { self.out.push_str("\\\\"); }
                 }
